@@ -4,9 +4,15 @@ import TempestVerif.Lemmas.ScReal
 import Mathlib.Tactic
 /-
   C15 — mixture and hierarchical clustering invariants.
-  Part 1 (any scalar type): the split loop of `HierarchicalGaussianMixture.fit`, label assembly, `argmax`/`argmin`.
-  Part 2 (at `ℝ`): the M-step algebra of `GaussianMixture` (simplex, PSD, mean in the bounding box,
-  integer weights ≡ replication, scale invariance).
+  Part 1 (any scalar type `[Sc α]`): the split loop of `HierarchicalGaussianMixture.fit` with the numerics
+    supplied by an oracle — partition invariant, cluster cap, minimum child size, label assembly, and the
+    range (and, at `ℝ`, first-maximum semantics) of `np.argmax` / `np.argmin` in `predict`.
+  Part 2 (at `ℝ`): the M-step algebra of `GaussianMixture` as the code is now (no shrink in the means,
+    `+eps` in the covariances): simplex, symmetric PSD covariances, mean in the bounding box, E-step rows,
+    scale (in)variance under `sample_weight / sum`, integer weights ≡ replication.
+  The initial soft assignment (log-domain, max-shifted) is a probability vector per row
+  (`C15_init_rows_simplex_full`).  What is *not* proved: that every later E-step of a whole `fit` delivers
+  finite responsibilities of positive total — scipy's density is outside the model.
 -/
 namespace Props.C15
 open Model.HGMM Model.EM
@@ -465,7 +471,6 @@ theorem sum_eq (l : List ℝ) : Sc.sum l = l.sum := by
   simpa using this 0
 
 theorem mul_fun : (Sc.mul : ℝ → ℝ → ℝ) = fun a b => a * b := rfl
-theorem sub_fun : (Sc.sub : ℝ → ℝ → ℝ) = fun a b => a - b := rfl
 
 /-! ### shapes -/
 
@@ -780,6 +785,60 @@ theorem C15_estep_rows (eps : ℝ) (P : List (List ℝ)) (heps : 0 < eps) (hP : 
       simp [div_eq_mul_inv]
     rw [this, List.sum_map_mul_right, List.map_id, ← div_eq_mul_inv, div_le_one ht]
     linarith
+
+/-! ### the soft assignment of `_initialize_parameters` (log-domain, shifted by the row maximum) -/
+
+theorem rowMax_spec (xs : List ℝ) : ∀ x : ℝ, rowMax x xs ∈ x :: xs ∧ ∀ y ∈ x :: xs, y ≤ rowMax x xs := by
+  induction xs with
+  | nil => intro x; simp [rowMax]
+  | cons a xs ih =>
+    intro x
+    have h := ih (Sc.max x a)
+    simp only [rowMax, List.foldl_cons] at h ⊢
+    rw [ScReal.max_def] at h ⊢
+    obtain ⟨hm, hle⟩ := h
+    constructor
+    · rcases List.mem_cons.mp hm with hm | hm
+      · rw [hm]
+        rcases max_choice x a with h1 | h1 <;> simp [h1]
+      · simp [hm]
+    · intro y hy
+      have hmx : max x a ≤ List.foldl Sc.max (max x a) xs := hle _ List.mem_cons_self
+      rcases List.mem_cons.mp hy with rfl | hy
+      · exact (le_max_left _ a).trans hmx
+      · rcases List.mem_cons.mp hy with rfl | hy
+        · exact (le_max_right x _).trans hmx
+        · exact hle y (List.mem_cons_of_mem _ hy)
+
+/-- after the shift every entry is in (0, 1] and the entry of the row maximum is exactly `exp 0 = 1`:
+    the normaliser is ≥ 1, never 0 (this is what the `fix:` bought over the doubles) -/
+theorem C15_init_shift_has_one (row : List ℝ) (h : row ≠ []) :
+    (1 : ℝ) ∈ shiftExp row ∧ ∀ e ∈ shiftExp row, 0 < e ∧ e ≤ 1 := by
+  cases row with
+  | nil => exact absurd rfl h
+  | cons x xs =>
+    obtain ⟨hm, hle⟩ := rowMax_spec xs x
+    simp only [shiftExp, List.mem_map, ScReal.exp_def, ScReal.sub_def]
+    refine ⟨⟨rowMax x xs, hm, by simp⟩, ?_⟩
+    rintro e ⟨l, hl, rfl⟩
+    exact ⟨Real.exp_pos _, by rw [Real.exp_le_one_iff]; linarith [hle l hl]⟩
+
+/-- **every row of the initial responsibilities is a probability vector** (entries ≥ 0, sum exactly 1),
+    for every real matrix of log-values with K ≥ 1 columns -/
+theorem C15_init_rows_simplex_full (L : List (List ℝ)) (hL : ∀ row ∈ L, row ≠ []) :
+    ∀ row ∈ initNormalise L, (∀ r ∈ row, 0 ≤ r) ∧ Sc.sum row = 1 := by
+  intro row hrow
+  simp only [initNormalise, List.mem_map] at hrow
+  obtain ⟨l, hl, rfl⟩ := hrow
+  obtain ⟨h1, hpos⟩ := C15_init_shift_has_one l (hL l hl)
+  have h0 : ∀ e ∈ shiftExp l, 0 ≤ e := fun e he => (hpos e he).1.le
+  have ht : 0 < (shiftExp l).sum :=
+    lt_of_lt_of_le one_pos (List.single_le_sum h0 1 h1)
+  have := normalise_simplex (shiftExp l) h0 ht
+  simpa [normalise] using this
+
+theorem initNormalise_shape (L : List (List ℝ)) :
+    (initNormalise L).length = L.length := by simp [initNormalise]
 
 /-! ### a common positive factor in the sample weights (`sample_weight / np.sum(sample_weight)`) -/
 
@@ -1168,6 +1227,18 @@ theorem C15_em_factors_through_wsum (tiny eps t : ℝ) (d K : Nat) (X R : List (
     simp only [covDiagEntry]
     rw [hsum k hk', col_replicateBy a c _ (hDshape _ hm a (List.mem_range.mp ha)),
       wcol_replicated k t c R (hRk k hk') hcR, wcol_weighted k t c R (hRk k hk'), diag_rep]
+/-- the form met in `GaussianMixture.fit`, which first divides the sample weights by their sum: counts `c_i`
+    become `c_i / N`, the `N = Σ c_i` replicated unit weights become `1 / N` — the same factor on both sides -/
+theorem C15_replicate_normalised (tiny eps : ℝ) (d K : Nat) (X R : List (List ℝ)) (c : List ℕ)
+    (hX : ∀ x ∈ X, x.length = d) (hR : ∀ row ∈ R, row.length = K) (hcR : c.length = R.length) :
+    mstep tiny eps d K (replicateBy c X) (replicateBy c R) (List.replicate c.sum (1 / (c.sum : ℝ)))
+      = mstep tiny eps d K X R (c.map fun (ci : ℕ) => (ci : ℝ) / (c.sum : ℝ)) := by
+  rw [C15_em_factors_through_wsum tiny eps (1 / (c.sum : ℝ)) d K X R c hX hR hcR]
+  congr 1
+  apply List.map_congr_left
+  intro ci _
+  ring
+
 /-! ### non-vacuity: a concrete weighted data set (3 points in 1-D, 2 components) -/
 
 noncomputable def exX : List (List ℝ) := [[1], [3], [5]]
@@ -1199,6 +1270,16 @@ example : ∃ m, ((mstepMeans (1/1000) 1 2 exX exR exS)[0]?.bind (·[0]?)) = som
   · norm_num
   · simp [weightedResp, col, Sc.sum, exR, exS]; norm_num
   · simp [col, exX]; norm_num
+
+/-- the log soft assignment of a point 40 and 50 away from the two centres (`exp` of either underflows in
+    doubles) and of a point at a centre: the hypothesis of `C15_init_rows_simplex_full` holds, rows sum to 1 -/
+example : ∀ row ∈ initNormalise ([[-800, -1250], [0, -2]] : List (List ℝ)),
+    (∀ r ∈ row, 0 ≤ r) ∧ Sc.sum row = 1 :=
+  C15_init_rows_simplex_full _ (by simp)
+
+example : shiftExp ([-800, -1250] : List ℝ) = [1, Real.exp (-450)] := by
+  simp [shiftExp, rowMax, ScReal.max_def]
+  norm_num
 
 /-- a full covariance entry of the example (component 0, mean 2): (1·1 + 1·1)/(2 + 1/10) -/
 example : covEntry (1/10) (col (weightedResp exR exS) 0) (diffRows exX [2]) 0 0 = 20/21 := by
